@@ -71,11 +71,15 @@ def run(tier="quick", seed=1, replay=None):
             singles, _ = vf.gen_exhaustive("Pull", cfg, wd)
             cfg = vf.write_cfg(wd, "Gen_Pull2.cfg", {"MaxAttempts": 2, "MaxFaults": 2, "Pre": '"none"', **ASIS}, GEN_BODY)
             doubles, _ = vf.gen_simulate("Pull", cfg, wd, num=4 if quick else 60, depth=4, seed=seed)
+            if not quick:     # three faulty attempts, up to three faults each
+                cfg = vf.write_cfg(wd, "Gen_Pull3.cfg", {"MaxAttempts": 3, "MaxFaults": 3, "Pre": '"none"', **ASIS}, GEN_BODY)
+                triples, _ = vf.gen_simulate("Pull", cfg, wd, num=40, depth=5, seed=seed + 17)
+                doubles = doubles + triples
             rnd = random.Random(seed)
             singles = vf.dedupe(singles)
             doubles = vf.dedupe(doubles)
             rnd.shuffle(doubles)
-            pick = singles + doubles[:(16 if quick else 600)]
+            pick = singles + doubles[:(16 if quick else 1800)]
             scripts = []
             for i, h in enumerate(pick):
                 atts = [sorted(a, key=lambda x: (x["slot"], x["b"])) for a in h] + [[]]     # + a fault-free retry
